@@ -127,7 +127,7 @@ class IoGenProblem(GenProblem):
         self.bad = None
         try:
             p.kind
-        except ZeroDivisionError:
+        except (ZeroDivisionError, AssertionError):
             self.bad = "constant division by zero in a generated expression"
 
     # ------------------------------------------------------------------ overrides
